@@ -1,5 +1,1399 @@
-//! C10 — placeholder, implemented by a dedicated module author.
-use vkit::{Args, Reporter};
-pub fn run(_args: &Args, rep: &mut Reporter) {
-    rep.inconclusive("c10 not implemented yet");
+//! C10 — ciphertext is authenticated, key-bound and never reuses a nonce.
+//!
+//! Everything goes through the repository's public API; no crypto is
+//! re-implemented here. Four parts, all executed by every shard with its
+//! own keys / plaintexts / passwords:
+//!
+//!  1. round trip + tamper for AES-GCM-256 and XChaCha20-Poly1305 through
+//!     `Cipher::{encrypt,decrypt}_symmetric` and through
+//!     `Vault::{encrypt,decrypt}` (vault made by `VaultBuilder`), and for
+//!     X25519/age through `Cipher::{encrypt,decrypt}_asymmetric` and a
+//!     shared vault. Oracle: `decrypt(encrypt(p)) == p`; every tampered pack
+//!     / wrong key must give `Err` — `Ok(anything)` is a violation.
+//!  2. folder unlock matrix (`AccessPoint::unlock`, `Vault::verify`): a
+//!     folder opens with its own password only; a refused unlock must leave
+//!     the access point locked.
+//!  3. KDF separation (Argon2id, Balloon): deterministic, and pairwise
+//!     distinct keys for input triples that differ in password, salt or seed.
+//!  4. nonce freshness: nonces of packs produced under one key are recorded
+//!     in a set; a repeat is a violation.
+//!
+//! Signatures: `C10:<cipher>:<class>:<clause>`, `C10:kdf:<kdf>:<clause>`,
+//! `C10:unlock:<clause>`, `C10:<cipher>:nonce_reused`.
+use age::x25519::{Identity, Recipient};
+use futures::FutureExt;
+use secrecy::{ExposeSecret, SecretString};
+use serde_json::{json, Value};
+use sos_core::crypto::{
+    AccessKey, AeadPack, Cipher, DerivedPrivateKey, KeyDerivation, Nonce,
+    PrivateKey, Seed,
+};
+use sos_core::{decode, SecretId};
+use sos_vault::secret::{Secret, SecretMeta, SecretRow, SecretType};
+use sos_vault::{
+    AccessPoint, BuilderCredentials, SecretAccess, Vault, VaultBuilder,
+    VaultMeta,
+};
+use std::collections::{BTreeSet, HashSet};
+use std::panic::AssertUnwindSafe;
+use std::time::Instant;
+use vkit::{Args, Fnv, Reporter, Rng};
+
+const TAG: usize = 16;
+/// Ciphertexts up to this many bytes get exhaustive bit flips/truncations.
+const EXHAUSTIVE_MAX: usize = 96;
+/// Number of sampled bit flips for bigger ciphertexts.
+const SAMPLED_FLIPS: usize = 300;
+
+type Ap = AccessPoint<sos_vault::Error>;
+
+struct Cx<'a> {
+    rep: &'a mut Reporter,
+    rng: Rng,
+}
+
+/// A private key with a printable form for replays and case hashes.
+struct K {
+    key: PrivateKey,
+    hex: String,
+    tag: u64,
+}
+
+impl K {
+    fn sym(bytes: Vec<u8>) -> K {
+        let hex = hex::encode(&bytes);
+        let tag = vkit::fnv64(&bytes);
+        K { key: PrivateKey::Symmetric(DerivedPrivateKey::from(bytes)), hex, tag }
+    }
+    fn asym(id: &Identity) -> K {
+        let s = id.to_string().expose_secret().to_string();
+        K { key: PrivateKey::Asymmetric(id.clone()), tag: vkit::fnv64(s.as_bytes()), hex: s }
+    }
+}
+
+/// How a pack is encrypted / decrypted.
+#[derive(Clone, Copy)]
+enum Via<'a> {
+    Direct(Cipher),
+    Vault(&'a Vault),
+}
+
+impl Via<'_> {
+    fn cipher(&self) -> Cipher {
+        match self {
+            Via::Direct(c) => *c,
+            Via::Vault(v) => *v.cipher(),
+        }
+    }
+    fn label(&self) -> &'static str {
+        match self {
+            Via::Direct(_) => "cipher_api",
+            Via::Vault(_) => "vault_api",
+        }
+    }
+}
+
+async fn enc(
+    via: Via<'_>,
+    key: &PrivateKey,
+    pt: &[u8],
+    nonce: Option<Nonce>,
+    recipients: &[Recipient],
+) -> Result<AeadPack, String> {
+    match via {
+        Via::Direct(Cipher::X25519) => Cipher::X25519
+            .encrypt_asymmetric(key, pt, recipients.to_vec())
+            .await
+            .map_err(|e| e.to_string()),
+        Via::Direct(c) => {
+            c.encrypt_symmetric(key, pt, nonce).await.map_err(|e| e.to_string())
+        }
+        Via::Vault(v) => v.encrypt(key, pt).await.map_err(|e| e.to_string()),
+    }
+}
+
+async fn dec(via: Via<'_>, key: &PrivateKey, pack: &AeadPack) -> Result<Vec<u8>, String> {
+    match via {
+        Via::Direct(Cipher::X25519) => Cipher::X25519
+            .decrypt_asymmetric(key, pack)
+            .await
+            .map_err(|e| e.to_string()),
+        Via::Direct(c) => c.decrypt_symmetric(key, pack).await.map_err(|e| e.to_string()),
+        Via::Vault(v) => v.decrypt(key, pack).await.map_err(|e| e.to_string()),
+    }
+}
+
+fn nonce_of(bytes: &[u8]) -> Nonce {
+    if bytes.len() == 12 {
+        let mut a = [0u8; 12];
+        a.copy_from_slice(bytes);
+        Nonce::Nonce12(a)
+    } else {
+        let mut a = [0u8; 24];
+        a.copy_from_slice(&bytes[..24]);
+        Nonce::Nonce24(a)
+    }
+}
+
+fn nonce_kind(n: &Nonce) -> &'static str {
+    match n {
+        Nonce::Nonce12(_) => "nonce12",
+        Nonce::Nonce24(_) => "nonce24",
+    }
+}
+
+fn nonce_len_for(c: Cipher) -> usize {
+    match c {
+        Cipher::XChaCha20Poly1305 => 24,
+        _ => 12,
+    }
+}
+
+fn blob(bytes: &[u8]) -> Value {
+    if bytes.len() <= 4096 {
+        json!(hex::encode(bytes))
+    } else {
+        json!({"len": bytes.len(), "sha256": hex::encode(vkit::sha256(bytes)), "head": hex::encode(&bytes[..64]), "tail": hex::encode(&bytes[bytes.len()-64..])})
+    }
+}
+
+/// Plaintext from a recorded recipe so that a replay can rebuild it.
+fn plaintext(seed: u64, size: usize) -> (Vec<u8>, &'static str) {
+    match seed % 5 {
+        0 => (vec![0u8; size], "zeros"),
+        1 => (vec![0xffu8; size], "ones"),
+        _ => (Rng::new(seed).bytes(size), "random"),
+    }
+}
+
+/// Where an (untampered) pack came from; goes into every replay.
+struct Origin {
+    cipher: String,
+    via: &'static str,
+    key_hex: String,
+    pt_seed: u64,
+    pt_kind: &'static str,
+    size: usize,
+    nonce_hex: String,
+    nonce_explicit: bool,
+    ciphertext: Value,
+}
+
+impl Origin {
+    fn json(&self) -> Value {
+        json!({
+            "cipher": self.cipher, "via": self.via, "key": self.key_hex,
+            "plaintext": {"recipe": "vkit::Rng::new(seed).bytes(size) unless kind is zeros/ones", "seed": self.pt_seed, "kind": self.pt_kind, "size": self.size},
+            "nonce": self.nonce_hex, "nonce_chosen_by_harness": self.nonce_explicit,
+            "ciphertext": self.ciphertext,
+        })
+    }
+}
+
+/// The tampered pack (or the wrong key) must be refused.
+#[allow(clippy::too_many_arguments)]
+async fn must_fail(
+    cx: &mut Cx<'_>,
+    o: &Origin,
+    via: Via<'_>,
+    key: &K,
+    pack: &AeadPack,
+    class: &str,
+    inst: u64,
+    nontrivial: bool,
+) {
+    cx.rep.count(&format!("tamper:{class}"), 1);
+    let mut h = Fnv::new();
+    h.str(&o.cipher).str(via.label()).str(class).u64(o.size as u64).u64(inst).u64(key.tag).bytes(pack.nonce.as_ref());
+    cx.rep.case(h.finish(), nontrivial);
+    if !nontrivial {
+        cx.rep.count("tamper_noop_skipped", 1);
+        return;
+    }
+    if let Ok(bytes) = dec(via, &key.key, pack).await {
+        let (pt, _) = plaintext(o.pt_seed, o.size);
+        let same = bytes == pt;
+        cx.rep.violation(
+            &format!("C10:{}:{}:decrypted", o.cipher, class),
+            &format!(
+                "{} via {}: decrypt of a pack tampered by `{}` (instance {}) of a {}-byte plaintext returned Ok({} bytes, {} the original plaintext) instead of Err",
+                o.cipher, via.label(), class, inst, o.size, bytes.len(), if same { "equal to" } else { "different from" }
+            ),
+            json!({
+                "origin": o.json(), "mutation": {"class": class, "instance": inst},
+                "decrypt_via": via.label(), "decrypt_cipher": via.cipher().to_string(), "decrypt_key": key.hex,
+                "tampered": {"nonce_kind": nonce_kind(&pack.nonce), "nonce": hex::encode(pack.nonce.as_ref()), "ciphertext": blob(&pack.ciphertext)},
+                "returned": blob(&bytes),
+            }),
+        );
+    }
+}
+
+/// Bit indices to flip in a buffer of `len` bytes.
+fn flip_bits(rng: &mut Rng, len: usize, exhaustive: bool, sample: usize, anchors: &[usize]) -> Vec<usize> {
+    let bits = len * 8;
+    if bits == 0 {
+        return vec![];
+    }
+    if exhaustive || bits <= sample {
+        return (0..bits).collect();
+    }
+    let mut set = BTreeSet::new();
+    for a in anchors {
+        if *a < len {
+            for b in 0..8 {
+                set.insert(a * 8 + b);
+            }
+        }
+    }
+    while set.len() < sample {
+        set.insert(rng.usize(bits));
+    }
+    set.into_iter().collect()
+}
+
+fn trunc_lengths(rng: &mut Rng, len: usize, anchors: &[usize]) -> Vec<usize> {
+    if len <= EXHAUSTIVE_MAX {
+        return (0..len).collect();
+    }
+    let mut set = BTreeSet::new();
+    for a in [0usize, 1, 15, 16, 17, 31, 32, len / 2, len - 33, len - 32, len - 17, len - 16, len - 15, len - 2, len - 1] {
+        if a < len {
+            set.insert(a);
+        }
+    }
+    for a in anchors {
+        if *a < len {
+            set.insert(*a);
+        }
+    }
+    for _ in 0..24 {
+        set.insert(rng.usize(len));
+    }
+    set.into_iter().collect()
+}
+
+fn wrong_sym_keys(rng: &mut Rng, key: &[u8]) -> Vec<K> {
+    let mut out = vec![];
+    let mut a = key.to_vec();
+    a[0] ^= 0x01;
+    out.push(K::sym(a));
+    let mut b = key.to_vec();
+    let last = b.len() - 1;
+    b[last] ^= 0x80;
+    out.push(K::sym(b));
+    let mut c = key.to_vec();
+    c.reverse();
+    out.push(K::sym(c));
+    out.push(K::sym(vec![0u8; key.len()]));
+    while out.len() < 8 {
+        out.push(K::sym(rng.bytes(key.len())));
+    }
+    out.retain(|k| k.hex != hex::encode(key));
+    out
+}
+
+/// Part 1 for one symmetric cipher, one path, one plaintext size.
+#[allow(clippy::too_many_arguments)]
+async fn sym_suite(
+    cx: &mut Cx<'_>,
+    via: Via<'_>,
+    cross: Via<'_>,
+    other: Via<'_>,
+    key: &K,
+    age_key: &K,
+    size: usize,
+    sample_it: bool,
+) {
+    let cipher = via.cipher();
+    let cname = cipher.to_string();
+    let nlen = nonce_len_for(cipher);
+    let pt_seed = cx.rng.next();
+    let (pt, pt_kind) = plaintext(pt_seed, size);
+
+    // the harness picks the nonce for some direct-API packs (covers the
+    // Some(nonce) argument and makes big packs reproducible from a recipe)
+    let explicit = match via {
+        Via::Direct(_) => size > 4096 || cx.rng.chance(1, 3),
+        Via::Vault(_) => false,
+    };
+    let chosen = if explicit { Some(nonce_of(&cx.rng.bytes(nlen))) } else { None };
+    let pack = match enc(via, &key.key, &pt, chosen.clone(), &[]).await {
+        Ok(p) => p,
+        Err(e) => {
+            cx.rep.violation(
+                &format!("C10:{cname}:roundtrip:encrypt_error"),
+                &format!("{cname} via {}: encrypting a {size}-byte plaintext failed: {e}", via.label()),
+                json!({"cipher": cname, "via": via.label(), "key": key.hex, "pt_seed": pt_seed, "pt_kind": pt_kind, "size": size}),
+            );
+            return;
+        }
+    };
+    let o = Origin {
+        cipher: cname.clone(),
+        via: via.label(),
+        key_hex: key.hex.clone(),
+        pt_seed,
+        pt_kind,
+        size,
+        nonce_hex: hex::encode(pack.nonce.as_ref()),
+        nonce_explicit: explicit,
+        ciphertext: blob(&pack.ciphertext),
+    };
+    cx.rep.max("max_plaintext_bytes", size as u64);
+
+    // ---- round trip -------------------------------------------------
+    {
+        let mut h = Fnv::new();
+        h.str(&cname).str(via.label()).str("roundtrip").u64(size as u64).u64(key.tag).bytes(pack.nonce.as_ref());
+        cx.rep.case(h.finish(), true);
+        if pack.nonce.as_ref().len() != nlen {
+            cx.rep.violation(
+                &format!("C10:{cname}:roundtrip:nonce_kind"),
+                &format!("{cname} produced a {} pack", nonce_kind(&pack.nonce)),
+                o.json(),
+            );
+        }
+        if let Some(n) = &chosen {
+            if *n != pack.nonce {
+                cx.rep.violation(&format!("C10:{cname}:roundtrip:nonce_not_honoured"), "encrypt_symmetric(.., Some(nonce)) returned a pack with another nonce", o.json());
+            }
+        }
+        if pack.ciphertext.len() != size + TAG {
+            cx.rep.count("ciphertext_len_unexpected", 1);
+        }
+        if size >= 16 && pack.ciphertext.len() >= size && pack.ciphertext[..size] == pt[..] {
+            cx.rep.violation(&format!("C10:{cname}:roundtrip:ciphertext_is_plaintext"), "the ciphertext starts with the verbatim plaintext", o.json());
+        }
+        for (d, label) in [(via, "same_path"), (cross, "cross_path")] {
+            match dec(d, &key.key, &pack).await {
+                Ok(back) if back == pt => {
+                    cx.rep.count("roundtrips", 1);
+                    cx.rep.count(&format!("roundtrips:{cname}"), 1);
+                }
+                Ok(back) => cx.rep.violation(
+                    &format!("C10:{cname}:roundtrip:mismatch"),
+                    &format!("{cname}: encrypt via {} then decrypt via {} ({label}) of {size} bytes returned {} different bytes", via.label(), d.label(), back.len()),
+                    json!({"origin": o.json(), "decrypt_via": d.label(), "returned": blob(&back)}),
+                ),
+                Err(e) => cx.rep.violation(
+                    &format!("C10:{cname}:roundtrip:error"),
+                    &format!("{cname}: encrypt via {} then decrypt via {} ({label}) of {size} bytes failed: {e}", via.label(), d.label()),
+                    json!({"origin": o.json(), "decrypt_via": d.label()}),
+                ),
+            }
+        }
+        // same key, nonce and plaintext => same ciphertext (the KDF
+        // fallback comparison and the big-pack replays rely on it)
+        if let (Some(n), Via::Direct(_)) = (&chosen, via) {
+            if let Ok(p2) = enc(via, &key.key, &pt, Some(n.clone()), &[]).await {
+                if p2 != pack {
+                    cx.rep.violation(&format!("C10:{cname}:roundtrip:not_deterministic"), "same key, nonce and plaintext gave two different packs", o.json());
+                }
+            }
+        }
+    }
+
+    let ct = &pack.ciphertext;
+    let len = ct.len();
+    let nonce = pack.nonce.as_ref().to_vec();
+
+    // ---- single bit flips of the nonce (always exhaustive) -----------
+    for bit in 0..nonce.len() * 8 {
+        let mut n = nonce.clone();
+        n[bit / 8] ^= 1 << (bit % 8);
+        let t = AeadPack { nonce: nonce_of(&n), ciphertext: ct.clone() };
+        must_fail(cx, &o, via, key, &t, "bitflip_nonce", bit as u64, true).await;
+    }
+
+    // ---- single bit flips of the ciphertext --------------------------
+    let exhaustive = len <= EXHAUSTIVE_MAX;
+    let anchors = [0usize, len - 1, len.saturating_sub(TAG), len.saturating_sub(TAG + 1)];
+    let bits = flip_bits(&mut cx.rng, len, exhaustive, SAMPLED_FLIPS, &anchors);
+    if exhaustive {
+        cx.rep.count("exhaustive_flip_sets", 1);
+    }
+    {
+        let mut t = pack.clone();
+        for bit in &bits {
+            t.ciphertext[bit / 8] ^= 1 << (bit % 8);
+            must_fail(cx, &o, via, key, &t, "bitflip_ciphertext", *bit as u64, true).await;
+            t.ciphertext[bit / 8] ^= 1 << (bit % 8);
+        }
+    }
+
+    // ---- truncation --------------------------------------------------
+    for l in trunc_lengths(&mut cx.rng, len, &[]) {
+        let t = AeadPack { nonce: pack.nonce.clone(), ciphertext: ct[..l].to_vec() };
+        must_fail(cx, &o, via, key, &t, "truncate", l as u64, true).await;
+    }
+
+    // ---- extension ---------------------------------------------------
+    for n in 1..=32usize {
+        let mut c = ct.clone();
+        c.extend_from_slice(&cx.rng.bytes(n));
+        let t = AeadPack { nonce: pack.nonce.clone(), ciphertext: c };
+        must_fail(cx, &o, via, key, &t, "extend", n as u64, true).await;
+    }
+    for n in [1usize, 16, 32] {
+        let mut c = cx.rng.bytes(n);
+        c.extend_from_slice(ct);
+        let t = AeadPack { nonce: pack.nonce.clone(), ciphertext: c };
+        must_fail(cx, &o, via, key, &t, "prepend", n as u64, true).await;
+    }
+    {
+        // a copy of the tag appended, and the zero-extended body
+        let mut c = ct.clone();
+        c.extend_from_slice(&ct[len - TAG..]);
+        let t = AeadPack { nonce: pack.nonce.clone(), ciphertext: c };
+        must_fail(cx, &o, via, key, &t, "extend", 1000, true).await;
+    }
+
+    // ---- unencrypted data presented as ciphertext --------------------
+    {
+        let t = AeadPack { nonce: pack.nonce.clone(), ciphertext: pt.clone() };
+        must_fail(cx, &o, via, key, &t, "plaintext_as_ciphertext", 0, t != pack).await;
+        let mut c = pt.clone();
+        c.extend_from_slice(&[0u8; TAG]);
+        let t = AeadPack { nonce: pack.nonce.clone(), ciphertext: c };
+        must_fail(cx, &o, via, key, &t, "plaintext_as_ciphertext", 1, t != pack).await;
+        let t = AeadPack { nonce: pack.nonce.clone(), ciphertext: vec![0u8; len] };
+        must_fail(cx, &o, via, key, &t, "plaintext_as_ciphertext", 2, t != pack).await;
+    }
+
+    // ---- nonce size swap (same cipher) --------------------------------
+    let resized: Vec<Vec<u8>> = if nonce.len() == 12 {
+        let mut a = nonce.clone();
+        a.extend_from_slice(&[0u8; 12]);
+        let mut b = vec![0u8; 12];
+        b.extend_from_slice(&nonce);
+        let mut c = nonce.clone();
+        c.extend_from_slice(&nonce);
+        vec![a, b, c]
+    } else {
+        vec![nonce[..12].to_vec(), nonce[12..].to_vec()]
+    };
+    for (i, n) in resized.iter().enumerate() {
+        let t = AeadPack { nonce: nonce_of(n), ciphertext: ct.clone() };
+        must_fail(cx, &o, via, key, &t, "nonce_size_swap", i as u64, true).await;
+    }
+
+    // ---- the other symmetric cipher, same key -------------------------
+    must_fail(cx, &o, other, key, &pack, "other_cipher", 0, true).await;
+    for (i, n) in resized.iter().enumerate() {
+        let t = AeadPack { nonce: nonce_of(n), ciphertext: ct.clone() };
+        must_fail(cx, &o, other, key, &t, "other_cipher", 1 + i as u64, true).await;
+    }
+    // the X25519 cipher constant with a symmetric key / pack
+    must_fail(cx, &o, Via::Direct(Cipher::X25519), key, &pack, "other_cipher", 10, true).await;
+    // an asymmetric key given to the symmetric cipher
+    must_fail(cx, &o, via, age_key, &pack, "wrong_key_kind", 0, true).await;
+
+    // ---- parts swapped between packs under the same key ---------------
+    for variant in 0..2u64 {
+        // variant 0: another plaintext of the same size; 1: same plaintext
+        let pt_b = if variant == 0 && size > 0 { cx.rng.bytes(size) } else { pt.clone() };
+        let b = match enc(via, &key.key, &pt_b, None, &[]).await {
+            Ok(b) => b,
+            Err(_) => continue,
+        };
+        let t = AeadPack { nonce: pack.nonce.clone(), ciphertext: b.ciphertext.clone() };
+        must_fail(cx, &o, via, key, &t, "swap_ciphertext", variant, t != pack && t != b).await;
+        let t = AeadPack { nonce: b.nonce.clone(), ciphertext: ct.clone() };
+        must_fail(cx, &o, via, key, &t, "swap_nonce", variant, t != pack && t != b).await;
+        if b.ciphertext.len() == len {
+            let mut c = ct[..len - TAG].to_vec();
+            c.extend_from_slice(&b.ciphertext[len - TAG..]);
+            let t = AeadPack { nonce: pack.nonce.clone(), ciphertext: c };
+            must_fail(cx, &o, via, key, &t, "swap_tag", variant, t != pack && t != b).await;
+            let mut c = b.ciphertext[..len - TAG].to_vec();
+            c.extend_from_slice(&ct[len - TAG..]);
+            let t = AeadPack { nonce: pack.nonce.clone(), ciphertext: c };
+            must_fail(cx, &o, via, key, &t, "swap_body", variant, t != pack && t != b).await;
+        }
+    }
+
+    // ---- wrong key -----------------------------------------------------
+    let key_bytes = hex::decode(&key.hex).unwrap_or_default();
+    let wrong = wrong_sym_keys(&mut cx.rng, &key_bytes);
+    for (i, w) in wrong.iter().enumerate() {
+        must_fail(cx, &o, via, w, &pack, "wrong_key", i as u64, true).await;
+    }
+
+    if sample_it {
+        cx.rep.sample(json!({
+            "part": "roundtrip+tamper", "cipher": cname, "via": via.label(), "plaintext_bytes": size,
+            "key": key.hex, "nonce": o.nonce_hex, "ciphertext": o.ciphertext,
+            "bit_flips_tried": {"nonce": nonce.len() * 8, "ciphertext": bits.len(), "exhaustive": exhaustive},
+            "example_tampered": {"class": "bitflip_ciphertext", "bit": bits.last(), "outcome": "Err"},
+            "wrong_keys_tried": wrong.len(),
+        }));
+    }
+}
+
+/// End of the age header (index just after the MAC line).
+fn age_header_end(ct: &[u8]) -> Option<usize> {
+    let pat = b"\n--- ";
+    let start = ct.windows(pat.len()).position(|w| w == pat)?;
+    let rest = &ct[start + 1..];
+    let nl = rest.iter().position(|b| *b == b'\n')?;
+    Some(start + 1 + nl + 1)
+}
+
+/// Part 1 for X25519/age, one path, one plaintext size.
+#[allow(clippy::too_many_arguments)]
+async fn age_suite(
+    cx: &mut Cx<'_>,
+    via: Via<'_>,
+    cross: Via<'_>,
+    readers: &[&K],
+    strangers: &[K],
+    sym_key: &K,
+    recipients: &[Recipient],
+    size: usize,
+    exhaustive_header: bool,
+    flips: usize,
+    sample_it: bool,
+) {
+    let cname = Cipher::X25519.to_string();
+    let pt_seed = cx.rng.next();
+    let (pt, pt_kind) = plaintext(pt_seed, size);
+    let owner = readers[0];
+    let pack = match enc(via, &owner.key, &pt, None, recipients).await {
+        Ok(p) => p,
+        Err(e) => {
+            cx.rep.violation(
+                &format!("C10:{cname}:roundtrip:encrypt_error"),
+                &format!("{cname} via {}: encrypting a {size}-byte plaintext failed: {e}", via.label()),
+                json!({"cipher": cname, "via": via.label(), "pt_seed": pt_seed, "pt_kind": pt_kind, "size": size}),
+            );
+            return;
+        }
+    };
+    let o = Origin {
+        cipher: cname.clone(),
+        via: via.label(),
+        key_hex: owner.hex.clone(),
+        pt_seed,
+        pt_kind,
+        size,
+        nonce_hex: hex::encode(pack.nonce.as_ref()),
+        nonce_explicit: false,
+        ciphertext: if pack.ciphertext.len() <= 65536 { json!(hex::encode(&pack.ciphertext)) } else { blob(&pack.ciphertext) },
+    };
+    cx.rep.max("max_plaintext_bytes", size as u64);
+
+    // round trip for every recipient, on both paths
+    for (ri, r) in readers.iter().enumerate() {
+        let mut h = Fnv::new();
+        h.str(&cname).str(via.label()).str("roundtrip").u64(size as u64).u64(r.tag).bytes(&pack.ciphertext[..pack.ciphertext.len().min(256)]);
+        cx.rep.case(h.finish(), true);
+        for d in [via, cross] {
+            match dec(d, &r.key, &pack).await {
+                Ok(back) if back == pt => {
+                    cx.rep.count("roundtrips", 1);
+                    cx.rep.count(&format!("roundtrips:{cname}"), 1);
+                }
+                Ok(back) => cx.rep.violation(
+                    &format!("C10:{cname}:roundtrip:mismatch"),
+                    &format!("{cname}: recipient {ri} decrypting {size} bytes (encrypt via {}, decrypt via {}) got {} different bytes", via.label(), d.label(), back.len()),
+                    json!({"origin": o.json(), "recipient_index": ri, "identity": r.hex, "returned": blob(&back)}),
+                ),
+                Err(e) => cx.rep.violation(
+                    &format!("C10:{cname}:roundtrip:error"),
+                    &format!("{cname}: recipient {ri} decrypting {size} bytes (encrypt via {}, decrypt via {}) failed: {e}", via.label(), d.label()),
+                    json!({"origin": o.json(), "recipient_index": ri, "identity": r.hex}),
+                ),
+            }
+        }
+    }
+    if size >= 16 && pack.ciphertext.windows(size.min(64)).any(|w| w == &pt[..size.min(64)]) && pt_kind == "random" {
+        cx.rep.violation(&format!("C10:{cname}:roundtrip:ciphertext_is_plaintext"), "the age payload contains the verbatim plaintext", o.json());
+    }
+
+    let ct = &pack.ciphertext;
+    let len = ct.len();
+    let hdr = age_header_end(ct).unwrap_or(0);
+    if hdr == 0 {
+        cx.rep.count("age_header_not_found", 1);
+    }
+    cx.rep.max("age_header_bytes", hdr as u64);
+
+    // bit flips: header (exhaustive when asked) + sampled payload
+    let mut bits: BTreeSet<usize> = BTreeSet::new();
+    if exhaustive_header {
+        bits.extend(0..hdr * 8);
+        cx.rep.count("exhaustive_age_header_flip_sets", 1);
+    } else {
+        for _ in 0..flips / 2 {
+            if hdr > 0 {
+                bits.insert(cx.rng.usize(hdr * 8));
+            }
+        }
+        // the last base64 symbol of the header MAC carries unused bits
+        if hdr >= 2 {
+            bits.extend((hdr - 2) * 8..(hdr - 1) * 8);
+        }
+    }
+    let payload_bits = (len - hdr) * 8;
+    if payload_bits <= flips {
+        bits.extend(hdr * 8..len * 8);
+    } else {
+        for a in [hdr, hdr + 15, hdr + 16, len - 17, len - 16, len - 1] {
+            if a < len {
+                bits.extend(a * 8..a * 8 + 8);
+            }
+        }
+        let want = bits.len() + flips / 2;
+        while bits.len() < want {
+            bits.insert(hdr * 8 + cx.rng.usize(payload_bits));
+        }
+    }
+    {
+        let mut t = pack.clone();
+        for bit in &bits {
+            t.ciphertext[bit / 8] ^= 1 << (bit % 8);
+            must_fail(cx, &o, via, owner, &t, "bitflip_ciphertext", *bit as u64, true).await;
+            t.ciphertext[bit / 8] ^= 1 << (bit % 8);
+        }
+    }
+
+    // truncation (sampled, with the structural boundaries)
+    let mut cuts: BTreeSet<usize> = BTreeSet::new();
+    for a in [0usize, 1, 21, 22, hdr.saturating_sub(1), hdr, hdr + 1, hdr + 15, hdr + 16, hdr + 17, len.saturating_sub(17), len - TAG, len - 2, len - 1] {
+        if a < len {
+            cuts.insert(a);
+        }
+    }
+    let extra = if len <= 400 { len } else { 24 };
+    for i in 0..extra {
+        cuts.insert(if len <= 400 { i } else { cx.rng.usize(len) });
+    }
+    // for multi-chunk payloads also cut exactly at STREAM chunk boundaries
+    let chunk = 65536 + TAG;
+    let mut at = hdr + 16 + chunk;
+    while at < len {
+        cuts.insert(at);
+        at += chunk;
+    }
+    for l in cuts {
+        let t = AeadPack { nonce: pack.nonce.clone(), ciphertext: ct[..l].to_vec() };
+        must_fail(cx, &o, via, owner, &t, "truncate", l as u64, true).await;
+    }
+
+    // extension
+    for n in 1..=32usize {
+        let mut c = ct.clone();
+        c.extend_from_slice(&cx.rng.bytes(n));
+        let t = AeadPack { nonce: pack.nonce.clone(), ciphertext: c };
+        must_fail(cx, &o, via, owner, &t, "extend", n as u64, true).await;
+    }
+
+    // header / payload swapped between two packs for the same recipients
+    for variant in 0..2u64 {
+        let pt_b = if variant == 0 && size > 0 { cx.rng.bytes(size) } else { pt.clone() };
+        if let Ok(b) = enc(via, &owner.key, &pt_b, None, recipients).await {
+            if b.ciphertext == *ct {
+                cx.rep.violation(&format!("C10:{cname}:nonce_reused"), "two age encryptions produced byte-identical ciphertexts (file key and nonce reused)", o.json());
+            }
+            cx.rep.count("age_ciphertexts_compared", 1);
+            if let Some(hb) = age_header_end(&b.ciphertext) {
+                let mut c = ct[..hdr].to_vec();
+                c.extend_from_slice(&b.ciphertext[hb..]);
+                let t = AeadPack { nonce: pack.nonce.clone(), ciphertext: c };
+                must_fail(cx, &o, via, owner, &t, "swap_ciphertext", variant, hdr > 0).await;
+                let mut c = b.ciphertext[..hb].to_vec();
+                c.extend_from_slice(&ct[hdr..]);
+                let t = AeadPack { nonce: pack.nonce.clone(), ciphertext: c };
+                must_fail(cx, &o, via, owner, &t, "swap_ciphertext", 2 + variant, hdr > 0).await;
+            }
+        }
+    }
+
+    // identities that are not recipients, and a symmetric key
+    for (i, s) in strangers.iter().enumerate() {
+        must_fail(cx, &o, via, s, &pack, "wrong_key", i as u64, true).await;
+    }
+    must_fail(cx, &o, via, sym_key, &pack, "wrong_key_kind", 0, true).await;
+    must_fail(cx, &o, Via::Direct(Cipher::AesGcm256), owner, &pack, "other_cipher", 0, true).await;
+    must_fail(cx, &o, Via::Direct(Cipher::XChaCha20Poly1305), owner, &pack, "other_cipher", 1, true).await;
+
+    // The AeadPack nonce of an age pack is random filler (x25519.rs:31) that
+    // decryption never reads: flipping it cannot be detected. Observed and
+    // counted, reported as an observation (the age payload carries its own
+    // authenticated nonce), not as a violation.
+    {
+        let mut n = pack.nonce.as_ref().to_vec();
+        n[0] ^= 1;
+        let t = AeadPack { nonce: nonce_of(&n), ciphertext: ct.clone() };
+        match dec(via, &owner.key, &t).await {
+            Ok(b) if b == pt => cx.rep.count("observation:age_pack_nonce_not_authenticated", 1),
+            Ok(_) => cx.rep.violation(&format!("C10:{cname}:bitflip_nonce:decrypted_other_bytes"), "flipping the filler nonce changed the decrypted bytes", o.json()),
+            Err(_) => cx.rep.count("observation:age_pack_nonce_authenticated", 1),
+        }
+    }
+
+    if sample_it {
+        cx.rep.sample(json!({
+            "part": "roundtrip+tamper", "cipher": cname, "via": via.label(), "plaintext_bytes": size,
+            "age_ciphertext_bytes": len, "age_header_bytes": hdr, "recipients": readers.len(),
+            "bit_flips_tried": bits.len(), "header_flips_exhaustive": exhaustive_header,
+            "non_recipient_identities_tried": strangers.len(),
+        }));
+    }
+}
+
+/// A symmetric key of the wrong length must not decrypt either; the API
+/// may refuse with Err or panic (GenericArray::from_slice) — both are
+/// "no data". Only counted.
+async fn wrong_length_key_probe(cx: &mut Cx<'_>, cipher: Cipher, key: &K) {
+    let pt = b"wrong length key probe".to_vec();
+    let pack = match enc(Via::Direct(cipher), &key.key, &pt, None, &[]).await {
+        Ok(p) => p,
+        Err(_) => return,
+    };
+    let full = hex::decode(&key.hex).unwrap_or_default();
+    let prev = std::panic::take_hook();
+    std::panic::set_hook(Box::new(|_| {}));
+    let mut outcomes = vec![];
+    for l in [0usize, 16, 31, 33] {
+        let mut kb = full.clone();
+        kb.resize(l, 0);
+        let k = K::sym(kb);
+        let r = AssertUnwindSafe(dec(Via::Direct(cipher), &k.key, &pack)).catch_unwind().await;
+        outcomes.push(match r {
+            Err(_) => "panic",
+            Ok(Err(_)) => "err",
+            Ok(Ok(_)) => "ok",
+        });
+    }
+    std::panic::set_hook(prev);
+    let cname = cipher.to_string();
+    for (i, oc) in outcomes.iter().enumerate() {
+        cx.rep.count(&format!("observation:wrong_length_key:{cname}:{oc}"), 1);
+        if *oc == "ok" {
+            cx.rep.violation(
+                &format!("C10:{cname}:wrong_key_length:decrypted"),
+                "a key of another length decrypted the pack",
+                json!({"cipher": cname, "key": key.hex, "length_index": i, "nonce": hex::encode(pack.nonce.as_ref()), "ciphertext": hex::encode(&pack.ciphertext)}),
+            );
+        }
+    }
+}
+
+async fn derive_vault_key(vault: &Vault, password: &SecretString) -> Result<K, String> {
+    let salt = vault.salt().ok_or("vault has no salt")?;
+    let salt = KeyDerivation::parse_salt(salt).map_err(|e| e.to_string())?;
+    let key = AccessKey::Password(password.clone())
+        .into_private(vault.kdf(), &salt, vault.seed())
+        .map_err(|e| e.to_string())?;
+    match key {
+        PrivateKey::Symmetric(d) => Ok(K::sym(d.as_ref().to_vec())),
+        _ => Err("not symmetric".into()),
+    }
+}
+
+fn secret_row(label: &str) -> SecretRow {
+    SecretRow::new(
+        SecretId::new_v4(),
+        SecretMeta::new(label.to_string(), SecretType::Note),
+        Secret::Note { text: SecretString::from(format!("note {label}")), user_data: Default::default() },
+    )
+}
+
+/// Part 4 for one (cipher, key).
+async fn harvest_nonces(cx: &mut Cx<'_>, vault: &Vault, key: &K, n_direct: usize, n_vault: usize) {
+    let cipher = *vault.cipher();
+    let cname = cipher.to_string();
+    let mut seen: HashSet<Vec<u8>> = HashSet::with_capacity(n_direct + n_vault);
+    let mut degenerate = 0u64;
+    for i in 0..n_direct + n_vault {
+        let via = if i < n_direct { Via::Direct(cipher) } else { Via::Vault(vault) };
+        let pt = cx.rng.bytes(i % 33);
+        let pack = match enc(via, &key.key, &pt, None, &[]).await {
+            Ok(p) => p,
+            Err(e) => {
+                cx.rep.violation(&format!("C10:{cname}:roundtrip:encrypt_error"), &format!("encrypt failed while harvesting nonces: {e}"), json!({"cipher": cname, "key": key.hex}));
+                return;
+            }
+        };
+        let n = pack.nonce.as_ref().to_vec();
+        if n.iter().all(|b| *b == n[0]) {
+            degenerate += 1;
+        }
+        if !seen.insert(n.clone()) {
+            cx.rep.violation(
+                &format!("C10:{cname}:nonce_reused"),
+                &format!("{cname}: the nonce of encryption #{i} under one key was already used by an earlier encryption under the same key ({} nonces seen)", seen.len()),
+                json!({"cipher": cname, "via": via.label(), "key": key.hex, "nonce": hex::encode(&n), "encryption_index": i, "nonces_seen": seen.len()}),
+            );
+        }
+    }
+    if degenerate > 0 {
+        cx.rep.violation(&format!("C10:{cname}:nonce_degenerate"), &format!("{degenerate} generated nonces consist of one repeated byte"), json!({"cipher": cname}));
+    }
+    cx.rep.count("nonces_harvested", (n_direct + n_vault) as u64);
+    cx.rep.count(&format!("nonces_harvested:{cname}"), (n_direct + n_vault) as u64);
+    cx.rep.max("nonces_distinct_under_one_key", seen.len() as u64);
+    let mut h = Fnv::new();
+    h.str("nonce_harvest").str(&cname).u64(key.tag).u64((n_direct + n_vault) as u64);
+    cx.rep.case(h.finish(), n_direct + n_vault >= 2);
+}
+
+struct Folder {
+    vault: Vault,
+    password: SecretString,
+    cipher: Cipher,
+    kdf: KeyDerivation,
+    seeded: bool,
+}
+
+/// Part 2: unlock matrix.
+async fn unlock_part(cx: &mut Cx<'_>, folders: &[Folder], owner: &Identity) {
+    let mut matrix = vec![];
+    for (i, f) in folders.iter().enumerate() {
+        let mut row = vec![];
+        for (j, g) in folders.iter().enumerate() {
+            let key = AccessKey::Password(g.password.clone());
+            let own = i == j;
+            let mut ap = Ap::new(f.vault.clone());
+            let unlocked = ap.unlock(&key).await;
+            let verified = f.vault.verify(&key).await;
+            cx.rep.count("unlock_pairs", 1);
+            cx.rep.count("verify_pairs", 1);
+            let mut h = Fnv::new();
+            h.str("unlock").str(&f.cipher.to_string()).str(&f.kdf.to_string()).str(f.password.expose_secret()).str(g.password.expose_secret());
+            cx.rep.case(h.finish(), !own);
+            row.push(unlocked.is_ok());
+            let replay = json!({
+                "vault": {"cipher": f.cipher.to_string(), "kdf": f.kdf.to_string(), "seeded": f.seeded, "salt": f.vault.salt(), "password": f.password.expose_secret()},
+                "tried_password": g.password.expose_secret(), "own": own,
+                "meta_nonce": f.vault.header().meta().map(|m| hex::encode(m.nonce.as_ref())),
+                "meta_ciphertext": f.vault.header().meta().map(|m| hex::encode(&m.ciphertext)),
+            });
+            match (own, unlocked.is_ok()) {
+                (true, false) => cx.rep.violation("C10:unlock:own_password_refused", &format!("AccessPoint::unlock with the folder's own password failed: {}", unlocked.as_ref().err().map(|e| e.to_string()).unwrap_or_default()), replay.clone()),
+                (false, true) => cx.rep.violation("C10:unlock:other_password_accepted", "AccessPoint::unlock succeeded with another folder's password", replay.clone()),
+                _ => {}
+            }
+            match (own, verified.is_ok()) {
+                (true, false) => cx.rep.violation("C10:verify:own_password_refused", "Vault::verify refused the folder's own password", replay.clone()),
+                (false, true) => cx.rep.violation("C10:verify:other_password_accepted", "Vault::verify accepted another folder's password", replay.clone()),
+                _ => {}
+            }
+
+            if own {
+                // an unlocked folder stores and returns a secret
+                let r = secret_row("own");
+                let id = *r.id();
+                let ok = ap.create_secret(&r).await.is_ok() && matches!(ap.read_secret(&id).await, Ok(Some(_)));
+                if ok {
+                    cx.rep.count("unlock_own_write_read", 1);
+                } else {
+                    cx.rep.violation("C10:unlock:own_password_cannot_write_read", "after unlock with the own password create_secret/read_secret failed", replay.clone());
+                }
+                ap.lock();
+                if ap.create_secret(&secret_row("locked")).await.is_ok() {
+                    cx.rep.violation("C10:unlock:locked_write_accepted", "create_secret succeeded after lock()", replay.clone());
+                }
+            } else if unlocked.is_err() {
+                // "unlocks only with its own password": a refused unlock
+                // must leave the access point locked. Probe by writing.
+                cx.rep.count("refused_unlock_state_probes", 1);
+                let r = secret_row("after refused unlock");
+                let id = *r.id();
+                let wrote = ap.create_secret(&r).await;
+                if wrote.is_ok() {
+                    // who can read what was written?
+                    let readable_by_wrong = matches!(ap.read_secret(&id).await, Ok(Some(_)));
+                    let mut ap2 = Ap::new(ap.vault().clone());
+                    let reopen = ap2.unlock(&AccessKey::Password(f.password.clone())).await.is_ok();
+                    let readable_by_own = matches!(ap2.read_secret(&id).await, Ok(Some(_)));
+                    cx.rep.violation(
+                        "C10:unlock:refused_unlock_leaves_wrong_key:write_accepted",
+                        &format!(
+                            "AccessPoint::unlock(wrong password) returned Err but kept the key derived from the wrong password: the following create_secret succeeded instead of Error::VaultLocked; the stored secret is readable with the wrong password: {readable_by_wrong}, with the folder's own password: {readable_by_own} (own password still unlocks: {reopen})"
+                        ),
+                        replay.clone(),
+                    );
+                    // and the folder meta (the password check blob) can be replaced
+                    let mut ap3 = Ap::new(f.vault.clone());
+                    let _ = ap3.unlock(&key).await;
+                    let meta = VaultMeta::default();
+                    if ap3.set_vault_meta(&meta).await.is_ok() {
+                        let v = ap3.vault().clone();
+                        let own_after = Ap::new(v.clone()).unlock(&AccessKey::Password(f.password.clone())).await.is_ok();
+                        let wrong_after = Ap::new(v).unlock(&key).await.is_ok();
+                        cx.rep.violation(
+                            "C10:unlock:refused_unlock_leaves_wrong_key:meta_replaced",
+                            &format!("after a refused unlock set_vault_meta succeeded with the wrong key; afterwards the folder unlocks with its own password: {own_after}, with the wrong password: {wrong_after}"),
+                            replay.clone(),
+                        );
+                    }
+                } else {
+                    cx.rep.count("refused_unlock_stays_locked", 1);
+                }
+            }
+        }
+        matrix.push(row);
+    }
+    cx.rep.sample(json!({
+        "part": "unlock matrix (row = folder, column = password of folder j)",
+        "folders": folders.iter().map(|f| json!({"cipher": f.cipher.to_string(), "kdf": f.kdf.to_string(), "seeded": f.seeded, "password": f.password.expose_secret()})).collect::<Vec<_>>(),
+        "unlocked": matrix,
+    }));
+
+    // the stored meta blob decrypts to the VaultMeta, with the derived key
+    for f in folders {
+        if let (Ok(k), Some(meta)) = (derive_vault_key(&f.vault, &f.password).await, f.vault.header().meta()) {
+            match f.vault.decrypt(&k.key, meta).await {
+                Ok(bytes) => match decode::<VaultMeta>(&bytes).await {
+                    Ok(_) => cx.rep.count("stored_meta_roundtrips", 1),
+                    Err(e) => cx.rep.violation("C10:unlock:stored_meta_undecodable", &format!("stored meta decrypts but does not decode: {e}"), json!({"cipher": f.cipher.to_string()})),
+                },
+                Err(e) => cx.rep.violation("C10:unlock:stored_meta_not_decryptable", &format!("stored meta does not decrypt with the derived key: {e}"), json!({"cipher": f.cipher.to_string()})),
+            }
+        }
+    }
+
+    // same password, two folders: salts differ, so keys must differ
+    for f in folders.iter().take(2) {
+        let twin = VaultBuilder::new().cipher(f.cipher).kdf(f.kdf).build(BuilderCredentials::Password(f.password.clone(), None)).await;
+        if let (Ok(twin), Ok(k)) = (twin, derive_vault_key(&f.vault, &f.password).await) {
+            cx.rep.count("same_password_twin_folders", 1);
+            let mut h = Fnv::new();
+            h.str("twin").str(f.password.expose_secret()).str(twin.salt().map(|s| s.as_str()).unwrap_or(""));
+            cx.rep.case(h.finish(), twin.salt() != f.vault.salt());
+            if twin.salt() == f.vault.salt() {
+                cx.rep.violation("C10:kdf:salt_reused", "two vaults built with the same password got the same salt", json!({"salt": twin.salt()}));
+            }
+            if let Some(meta) = twin.header().meta() {
+                if twin.decrypt(&k.key, meta).await.is_ok() {
+                    cx.rep.violation(
+                        &format!("C10:kdf:{}:distinct_salt_same_key", f.kdf),
+                        "the key derived for one folder decrypts the meta of another folder that has the same password but another salt",
+                        json!({"password": f.password.expose_secret(), "salt_a": f.vault.salt(), "salt_b": twin.salt()}),
+                    );
+                }
+            }
+        }
+    }
+
+    // identities / passwords across key kinds
+    let stranger = Identity::generate();
+    let member = Identity::generate();
+    if let Ok(shared) = VaultBuilder::new()
+        .build(BuilderCredentials::Shared { owner, recipients: vec![member.to_public()], read_only: false })
+        .await
+    {
+        let probes: Vec<(&str, AccessKey, bool)> = vec![
+            ("owner", AccessKey::Identity(owner.clone()), true),
+            ("member", AccessKey::Identity(member.clone()), true),
+            ("stranger", AccessKey::Identity(stranger.clone()), false),
+            ("password", AccessKey::Password(folders[0].password.clone()), false),
+        ];
+        for (who, key, want) in probes {
+            let got = Ap::new(shared.clone()).unlock(&key).await.is_ok();
+            let ver = shared.verify(&key).await.is_ok();
+            cx.rep.count("unlock_pairs", 1);
+            cx.rep.count("unlock_pairs_shared_folder", 1);
+            let mut h = Fnv::new();
+            h.str("unlock_shared").str(who).bytes(&shared.id().as_bytes()[..]);
+            cx.rep.case(h.finish(), !want);
+            if got != want || ver != want {
+                let sig = if want { "C10:unlock:shared:recipient_refused" } else { "C10:unlock:shared:non_recipient_accepted" };
+                cx.rep.violation(sig, &format!("shared (X25519) folder: unlock by {who} -> {got}, verify -> {ver}, expected {want}"), json!({"who": who}));
+            }
+        }
+    }
+    // an identity offered to a password folder
+    for f in folders.iter().take(2) {
+        let key = AccessKey::Identity(stranger.clone());
+        let got = Ap::new(f.vault.clone()).unlock(&key).await.is_ok();
+        cx.rep.count("unlock_pairs", 1);
+        let mut h = Fnv::new();
+        h.str("unlock_identity_on_password_folder").str(&f.cipher.to_string());
+        cx.rep.case(h.finish(), true);
+        if got {
+            cx.rep.violation("C10:unlock:identity_accepted_by_password_folder", "a password folder unlocked with an age identity", json!({"cipher": f.cipher.to_string()}));
+        }
+    }
+}
+
+#[derive(Clone)]
+struct Triple {
+    p: usize,
+    s: usize,
+    e: usize,
+}
+
+fn derive_bytes(kdf: KeyDerivation, password: &str, salt: &str, seed: Option<&Seed>, via_access_key: bool) -> Result<Vec<u8>, String> {
+    let salt = KeyDerivation::parse_salt(salt).map_err(|e| format!("salt: {e}"))?;
+    let pw = SecretString::from(password.to_string());
+    if via_access_key {
+        match AccessKey::Password(pw).into_private(&kdf, &salt, seed).map_err(|e| e.to_string())? {
+            PrivateKey::Symmetric(d) => Ok(d.as_ref().to_vec()),
+            _ => Err("not symmetric".into()),
+        }
+    } else {
+        let d = kdf.deriver().derive(&pw, &salt, seed).map_err(|e| e.to_string())?;
+        Ok(d.as_ref().to_vec())
+    }
+}
+
+/// Part 3 for one KDF.
+fn kdf_part(cx: &mut Cx<'_>, kdf: KeyDerivation, np: usize, ns: usize, ne: usize) -> Vec<(Triple, Vec<u8>)> {
+    let kname = kdf.to_string();
+    // password pool with near misses
+    let base = cx.rng.token(12);
+    let mut passwords: Vec<String> = vec![
+        base.clone(),
+        format!("{base} "),
+        base.to_lowercase() + "A",
+        base[..base.len() - 1].to_string(),
+        format!("{base}{base}"),
+        format!("\u{e9}{base}"),
+        cx.rng.token(1),
+        cx.rng.token(40),
+    ];
+    let mut seen = HashSet::new();
+    passwords.retain(|p| seen.insert(p.clone()));
+    while passwords.len() < np {
+        let n = cx.rng.range(6, 24) as usize;
+        let t = cx.rng.token(n);
+        if seen.insert(t.clone()) {
+            passwords.push(t);
+        }
+    }
+    passwords.truncate(np);
+    // salts: produced by the SDK, plus a near miss (first symbol changed)
+    let mut salts: Vec<String> = vec![];
+    while salts.len() < ns {
+        if salts.len() == 1 {
+            let mut s: Vec<char> = salts[0].chars().collect();
+            s[0] = if s[0] == 'A' { 'B' } else { 'A' };
+            let s: String = s.into_iter().collect();
+            if KeyDerivation::parse_salt(&s).is_ok() && !salts.contains(&s) {
+                salts.push(s);
+                continue;
+            }
+        }
+        let s = KeyDerivation::generate_salt().to_string();
+        if !salts.contains(&s) {
+            salts.push(s);
+        } else {
+            cx.rep.violation("C10:kdf:salt_reused", "KeyDerivation::generate_salt returned the same salt twice", json!({"salt": s}));
+            break;
+        }
+    }
+    // seeds: none, random, near miss of it, all zero, ...
+    let mut seeds: Vec<Option<Seed>> = vec![None];
+    let mut r = [0u8; 32];
+    r.copy_from_slice(&cx.rng.bytes(32));
+    seeds.push(Some(Seed(r)));
+    let mut r2 = r;
+    r2[31] ^= 1;
+    seeds.push(Some(Seed(r2)));
+    seeds.push(Some(Seed([0u8; 32])));
+    while seeds.len() < ne {
+        let mut x = [0u8; 32];
+        x.copy_from_slice(&cx.rng.bytes(32));
+        seeds.push(Some(Seed(x)));
+    }
+    seeds.truncate(ne);
+
+    let mut keys: Vec<(Triple, Vec<u8>)> = vec![];
+    for (p, pw) in passwords.iter().enumerate() {
+        for (s, salt) in salts.iter().enumerate() {
+            for (e, seed) in seeds.iter().enumerate() {
+                let desc = json!({"kdf": kname, "password": pw, "salt": salt, "seed": seed.map(|s| hex::encode(s.0))});
+                let a = derive_bytes(kdf, pw, salt, seed.as_ref(), false);
+                let b = derive_bytes(kdf, pw, salt, seed.as_ref(), true);
+                cx.rep.count("kdf_derivations", 2);
+                cx.rep.count(&format!("kdf_derivations:{kname}"), 2);
+                let mut h = Fnv::new();
+                h.str("kdf_deterministic").str(&kname).str(pw).str(salt).bytes(&seed.map(|s| s.0.to_vec()).unwrap_or_default());
+                cx.rep.case(h.finish(), false);
+                match (a, b) {
+                    (Ok(a), Ok(b)) => {
+                        cx.rep.count("kdf_deterministic_checked", 1);
+                        if a != b {
+                            cx.rep.violation(&format!("C10:kdf:{kname}:not_deterministic"), "the same password, salt and seed derived two different keys", json!({"input": desc, "key_a": hex::encode(&a), "key_b": hex::encode(&b)}));
+                        }
+                        if a.len() != 32 {
+                            cx.rep.violation(&format!("C10:kdf:{kname}:key_length"), &format!("derived key has {} bytes", a.len()), desc.clone());
+                        }
+                        keys.push((Triple { p, s, e }, a));
+                    }
+                    (Err(e1), _) | (_, Err(e1)) => {
+                        cx.rep.count("kdf_derive_errors", 1);
+                        cx.rep.violation(&format!("C10:kdf:{kname}:derive_error"), &format!("derivation failed: {e1}"), desc);
+                    }
+                }
+            }
+        }
+    }
+
+    // pairwise separation
+    let mut sampled = false;
+    for i in 0..keys.len() {
+        for j in i + 1..keys.len() {
+            let (a, ka) = &keys[i];
+            let (b, kb) = &keys[j];
+            cx.rep.count("kdf_pairs_compared", 1);
+            cx.rep.count(&format!("kdf_pairs_compared:{kname}"), 1);
+            let dp = a.p != b.p;
+            let ds = a.s != b.s;
+            let de = a.e != b.e;
+            let differs = match (dp, ds, de) {
+                (true, false, false) => "password",
+                (false, true, false) => "salt",
+                (false, false, true) => "seed",
+                _ => "several",
+            };
+            cx.rep.count(&format!("kdf_pairs_differing_in:{differs}"), 1);
+            let mut h = Fnv::new();
+            h.str("kdf_pair").str(&kname).str(&passwords[a.p]).str(&salts[a.s]).u64(a.e as u64).str(&passwords[b.p]).str(&salts[b.s]).u64(b.e as u64).bytes(&seeds[a.e.max(b.e)].map(|s| s.0.to_vec()).unwrap_or_default());
+            cx.rep.case(h.finish(), true);
+            let pair = |t: &Triple, k: &Vec<u8>| json!({"password": passwords[t.p], "salt": salts[t.s], "seed": seeds[t.e].map(|s| hex::encode(s.0)), "key": hex::encode(k)});
+            if ka == kb {
+                cx.rep.violation(
+                    &format!("C10:kdf:{kname}:distinct_{differs}_same_key"),
+                    &format!("{kname}: two inputs that differ in {differs} derived the same key"),
+                    json!({"kdf": kname, "a": pair(a, ka), "b": pair(b, kb)}),
+                );
+            } else if !sampled && differs == "seed" {
+                sampled = true;
+                cx.rep.sample(json!({"part": "kdf pair", "kdf": kname, "differs_in": differs, "a": pair(a, ka), "b": pair(b, kb), "outcome": "keys differ"}));
+            }
+        }
+    }
+
+    // Observation (not a property clause: the passwords differ): derive()
+    // hashes `password ++ seed` without a separator, so (password, seed)
+    // and (password ++ seed-as-text, no seed) are the same KDF input.
+    {
+        let seed_txt = cx.rng.token(32);
+        let mut sb = [0u8; 32];
+        sb.copy_from_slice(seed_txt.as_bytes());
+        let salt = &salts[0];
+        let a = derive_bytes(kdf, &base, salt, Some(&Seed(sb)), false);
+        let b = derive_bytes(kdf, &format!("{base}{seed_txt}"), salt, None, false);
+        cx.rep.count("kdf_derivations", 2);
+        if let (Ok(a), Ok(b)) = (a, b) {
+            if a == b {
+                cx.rep.count(&format!("observation:kdf_password_seed_concatenation_ambiguous:{kname}"), 1);
+            } else {
+                cx.rep.count(&format!("observation:kdf_password_seed_domain_separated:{kname}"), 1);
+            }
+        }
+    }
+    keys
+}
+
+pub fn run(args: &Args, rep: &mut Reporter) {
+    let rt = match tokio::runtime::Builder::new_current_thread().enable_all().build() {
+        Ok(rt) => rt,
+        Err(e) => {
+            rep.inconclusive(&format!("c10: cannot build a tokio runtime: {e}"));
+            return;
+        }
+    };
+    rt.block_on(run_async(args, rep));
+}
+
+async fn run_async(args: &Args, rep: &mut Reporter) {
+    rep.set_max_samples(6);
+    let mut cx = Cx { rng: Rng::new(args.shard_seed() ^ 0xC10), rep };
+    let thorough = args.thorough();
+    let mut timing = serde_json::Map::new();
+
+    // ------------------------------------------------------------------
+    // folders: 2 per symmetric cipher, distinct (near-miss) passwords,
+    // both KDFs, one seeded
+    // ------------------------------------------------------------------
+    let t0 = Instant::now();
+    let base = cx.rng.token(14);
+    let pw: Vec<String> = vec![base.clone(), format!("{base}x"), base.to_uppercase() + "-", cx.rng.token(20)];
+    let mut seed_bytes = [0u8; 32];
+    seed_bytes.copy_from_slice(&cx.rng.bytes(32));
+    let plan = [
+        (Cipher::AesGcm256, KeyDerivation::Argon2Id, false),
+        (Cipher::AesGcm256, KeyDerivation::BalloonHash, true),
+        (Cipher::XChaCha20Poly1305, KeyDerivation::Argon2Id, true),
+        (Cipher::XChaCha20Poly1305, KeyDerivation::BalloonHash, false),
+    ];
+    let mut folders: Vec<Folder> = vec![];
+    for (i, (cipher, kdf, seeded)) in plan.iter().enumerate() {
+        let password = SecretString::from(pw[i].clone());
+        let seed = if *seeded { Some(Seed(seed_bytes)) } else { None };
+        match VaultBuilder::new()
+            .cipher(*cipher)
+            .kdf(*kdf)
+            .description(format!("c10 folder {i}"))
+            .build(BuilderCredentials::Password(password.clone(), seed))
+            .await
+        {
+            Ok(vault) => folders.push(Folder { vault, password, cipher: *cipher, kdf: *kdf, seeded: *seeded }),
+            Err(e) => {
+                cx.rep.inconclusive(&format!("c10: VaultBuilder failed for {cipher}/{kdf}: {e}"));
+                return;
+            }
+        }
+    }
+    let owner = Identity::generate();
+    let member = Identity::generate();
+    let shared = match VaultBuilder::new()
+        .build(BuilderCredentials::Shared { owner: &owner, recipients: vec![member.to_public()], read_only: false })
+        .await
+    {
+        Ok(v) => v,
+        Err(e) => {
+            cx.rep.inconclusive(&format!("c10: VaultBuilder failed for a shared folder: {e}"));
+            return;
+        }
+    };
+    if *shared.cipher() != Cipher::X25519 {
+        cx.rep.inconclusive("c10: shared folder does not use the X25519 cipher");
+        return;
+    }
+    timing.insert("build_folders_s".into(), json!(t0.elapsed().as_secs_f64()));
+
+    // ------------------------------------------------------------------
+    // part 1: round trip + tamper
+    // ------------------------------------------------------------------
+    let t1 = Instant::now();
+    let mut sizes: Vec<usize> = vec![0, 1, 15, 16, 17, 63, 64, 65, 4096, 1 << 20];
+    if thorough {
+        sizes.push(8 << 20);
+    }
+    let owner_k = K::asym(&owner);
+    let member_k = K::asym(&member);
+    let aes_folder = &folders[0];
+    let xch_folder = &folders[2];
+    let mut sampled = false;
+    for f in [aes_folder, xch_folder] {
+        let other_f = if f.cipher == Cipher::AesGcm256 { xch_folder } else { aes_folder };
+        let vault_key = match derive_vault_key(&f.vault, &f.password).await {
+            Ok(k) => k,
+            Err(e) => {
+                cx.rep.inconclusive(&format!("c10: cannot derive the folder key: {e}"));
+                return;
+            }
+        };
+        for &size in &sizes {
+            // cipher API, fresh key per size
+            let key = K::sym(cx.rng.bytes(32));
+            let sample_it = !sampled && size == 17;
+            sampled |= sample_it;
+            sym_suite(&mut cx, Via::Direct(f.cipher), Via::Vault(&f.vault), Via::Direct(other_f.cipher), &key, &owner_k, size, sample_it).await;
+            // vault API, the folder's own derived key
+            sym_suite(&mut cx, Via::Vault(&f.vault), Via::Direct(f.cipher), Via::Vault(&other_f.vault), &vault_key, &owner_k, size, false).await;
+        }
+        wrong_length_key_probe(&mut cx, f.cipher, &vault_key).await;
+    }
+    timing.insert("symmetric_tamper_s".into(), json!(t1.elapsed().as_secs_f64()));
+
+    let t1b = Instant::now();
+    {
+        let strangers: Vec<K> = (0..4).map(|_| K::asym(&Identity::generate())).collect();
+        let recipients = vec![owner.to_public(), member.to_public()];
+        let sym_key = K::sym(cx.rng.bytes(32));
+        let readers = [&owner_k, &member_k];
+        let mut age_sizes = sizes.clone();
+        // exact STREAM chunk multiples (64 KiB) are the edge of the age payload format
+        age_sizes.extend([65535usize, 65536, 65537, 131072]);
+        let mut sampled = false;
+        for &size in &age_sizes {
+            let exhaustive_header = matches!(size, 0 | 1 | 17) || (thorough && size <= 65);
+            let sample_it = !sampled && size == 17;
+            sampled |= sample_it;
+            age_suite(&mut cx, Via::Direct(Cipher::X25519), Via::Vault(&shared), &readers, &strangers, &sym_key, &recipients, size, exhaustive_header, SAMPLED_FLIPS, sample_it).await;
+            // the shared vault path: same code underneath, lighter sampling
+            age_suite(&mut cx, Via::Vault(&shared), Via::Direct(Cipher::X25519), &readers, &strangers, &sym_key, &recipients, size, false, if size <= 65 { 120 } else { 60 }, false).await;
+        }
+    }
+    timing.insert("age_tamper_s".into(), json!(t1b.elapsed().as_secs_f64()));
+
+    // ------------------------------------------------------------------
+    // part 2: unlock matrix
+    // ------------------------------------------------------------------
+    let t2 = Instant::now();
+    unlock_part(&mut cx, &folders, &owner).await;
+    timing.insert("unlock_s".into(), json!(t2.elapsed().as_secs_f64()));
+
+    // ------------------------------------------------------------------
+    // part 4: nonce freshness (before the KDF part, which is the slow one)
+    // ------------------------------------------------------------------
+    let t4 = Instant::now();
+    let per = args.by_tier(10_000usize, 150_000usize);
+    for f in [aes_folder, xch_folder] {
+        if let Ok(k) = derive_vault_key(&f.vault, &f.password).await {
+            harvest_nonces(&mut cx, &f.vault, &k, per, per).await;
+        }
+    }
+    timing.insert("nonce_harvest_s".into(), json!(t4.elapsed().as_secs_f64()));
+
+    // ------------------------------------------------------------------
+    // part 3: KDF separation; the pool is sized from a measurement
+    // ------------------------------------------------------------------
+    let t3 = Instant::now();
+    let budget_s = args.by_tier(24.0f64, 400.0f64);
+    let (mut np, mut ns, mut ne) = args.by_tier((4usize, 3usize, 3usize), (8, 8, 5));
+    let mut cost = serde_json::Map::new();
+    let mut per_derivation = 0.0f64;
+    for kdf in [KeyDerivation::Argon2Id, KeyDerivation::BalloonHash] {
+        let salt = KeyDerivation::generate_salt().to_string();
+        let t = Instant::now();
+        let _ = derive_bytes(kdf, "timing probe", &salt, None, false);
+        let dt = t.elapsed().as_secs_f64();
+        cost.insert(kdf.to_string(), json!(dt));
+        per_derivation += dt;
+    }
+    // 2 derivations per triple and per KDF
+    while (np * ns * ne) as f64 * 2.0 * per_derivation > budget_s && np * ns * ne > 8 {
+        if ne > 2 && ne >= ns {
+            ne -= 1;
+        } else if ns > 2 && ns >= np {
+            ns -= 1;
+        } else if np > 2 {
+            np -= 1;
+        } else {
+            break;
+        }
+    }
+    if (np, ns, ne) != args.by_tier((4usize, 3usize, 3usize), (8, 8, 5)) {
+        cx.rep.count("kdf_pool_shrunk_for_time", 1);
+    }
+    let mut all: Vec<(String, Vec<(Triple, Vec<u8>)>)> = vec![];
+    for kdf in [KeyDerivation::Argon2Id, KeyDerivation::BalloonHash] {
+        let keys = kdf_part(&mut cx, kdf, np, ns, ne);
+        all.push((kdf.to_string(), keys));
+    }
+    // across KDFs no key may coincide either (pools differ, so any equal
+    // pair of keys is a collision of distinct inputs)
+    {
+        let mut set: HashSet<&Vec<u8>> = HashSet::new();
+        let mut n = 0u64;
+        for (_, keys) in &all {
+            for (_, k) in keys {
+                n += 1;
+                if !set.insert(k) {
+                    cx.rep.violation("C10:kdf:cross_kdf:same_key", "the same key bytes were derived twice over the pools of both KDFs", json!({"key": hex::encode(k)}));
+                }
+            }
+        }
+        cx.rep.count("kdf_keys_in_global_distinctness_set", n);
+    }
+    timing.insert("kdf_s".into(), json!(t3.elapsed().as_secs_f64()));
+    cx.rep.set_extra("kdf", json!({"pool": {"passwords": np, "salts": ns, "seeds_incl_none": ne}, "seconds_per_derivation": cost}));
+    cx.rep.set_extra("timing", Value::Object(timing));
+    cx.rep.set_extra(
+        "plan",
+        json!({
+            "plaintext_sizes": sizes, "exhaustive_flip_max_ciphertext_bytes": EXHAUSTIVE_MAX, "sampled_flips": SAMPLED_FLIPS,
+            "nonces_per_cipher_per_shard": per * 2, "shard": args.shard, "shards": args.shards,
+            "note": "every shard runs all four parts with its own keys, plaintexts and passwords",
+        }),
+    );
 }
